@@ -125,6 +125,24 @@ def gen_links(tier, seed, rels):
                     ndL = min(line) - 500
                     o = with_y(c, encode(line, miss, ndL), ndL)
                     links.append({"rel": rel, "line": [str(v) for v in line], "base": o, "other": o})
+    # boundary of the "too few valid cells" guard: 0 .. need+1 valid cells, every variant, every relation
+    for variant in ALLV:
+        need = 5 if variant in ("wcv", "wcvp") else 2
+        for keep in range(0, need + 2):
+            for rel in [r for r in rels if r in ("placeholder", "shift")]:
+                n = rng.choice([6, 8, 12])
+                c = params(rng, variant, n, quick)
+                vals = [rng.randint(100, 900) for _ in range(n)]
+                miss = set(range(n)) - set(rng.sample(range(n), keep))
+                ndA = rng.choice([-3000, 5000, 50])
+                vals = [v if v != ndA else v + 1 for v in vals]
+                base = with_y(c, encode(vals, miss, ndA), ndA)
+                if rel == "placeholder":
+                    ndB = rng.choice([-1, 7000, 0])
+                    links.append({"rel": rel, "base": base, "other": with_y(c, encode(vals, miss, ndB), ndB)})
+                else:
+                    sh = rng.choice([-37, 250])
+                    links.append({"rel": rel, "shift": sh, "base": base, "other": with_y(c, encode([v + sh for v in vals], miss, ndA + sh), ndA + sh)})
     if "reverse" in rels:
         # selection-sensitive inputs: fine grid, short series, near-tie V-curves; equal outputs are accepted
         # without any exact solve, so many of these are cheap
